@@ -44,3 +44,5 @@ reg('C15', 'propchecks.c15', 'proof', [('Bashlex.Props.C15', C15M), ('Bashlex.Pr
 reg('C06', 'propchecks.c06', 'proof', T1[:1], [ASCII, DEPTH, CORR, 'quote removal: per-input evaluation against the Lean definition; no all-inputs theorem for the expander yet'])
 
 reg('C07', 'propchecks.c07', 'proof', T1[:1], [ASCII, DEPTH, CORR])
+
+reg('C10', 'propchecks.c10', 'proof', T1[:1], [ASCII, CORR])
